@@ -1211,8 +1211,7 @@ fn oracle(ps: &ProcessState, compact: &[u8], pretty: &[u8]) -> (Vec<(String, Str
         Value::Null => {}
         Value::Array(a) if a.iter().all(|x| x.is_object() || x.is_null()) => {}
         v => {
-            let mut t = v.to_string();
-            t.truncate(80);
+            let t: String = v.to_string().chars().take(80).collect();
             or.fail("schema-soft-errors-shape", format!("soft_errors = {t} is documented [ <object> ]"));
         }
     }
@@ -1813,6 +1812,31 @@ impl Engine for Json {
         }
     }
     fn exec(&self, case: &str) -> ImplResult {
+        match catch(|| self.exec_inner(case)) {
+            Ok(r) => r,
+            Err(e) => ImplResult {
+                out: "harness-panic".into(),
+                oracle: vec![("harness-panic".into(), e)],
+                ..Default::default()
+            },
+        }
+    }
+    fn model_request(&self, case: &str) -> Option<String> {
+        catch(|| self.model_request_inner(case)).ok().flatten()
+    }
+    fn shrink(&self, case: &str, still_fails: &dyn Fn(&str) -> bool) -> String {
+        match catch(|| self.shrink_inner(case, still_fails)) {
+            Ok(s) => s,
+            Err(e) => {
+                eprintln!("shrinker panic: {e}");
+                case.to_string()
+            }
+        }
+    }
+}
+
+impl Json {
+    fn exec_inner(&self, case: &str) -> ImplResult {
         let Some(r) = run(case) else {
             return ImplResult { out: "bad-case".into(), tags: vec!["bad-case".into()], ..Default::default() };
         };
@@ -1841,7 +1865,7 @@ impl Engine for Json {
         res.tags = tags_of(&r);
         res
     }
-    fn model_request(&self, case: &str) -> Option<String> {
+    fn model_request_inner(&self, case: &str) -> Option<String> {
         let r = run(case)?;
         let line = catch(|| sx_line(&alpha(&r.ps))).ok()?;
         let mut req = format!("json {line}");
@@ -1852,7 +1876,7 @@ impl Engine for Json {
         }
         Some(req)
     }
-    fn shrink(&self, case: &str, still_fails: &dyn Fn(&str) -> bool) -> String {
+    fn shrink_inner(&self, case: &str, still_fails: &dyn Fn(&str) -> bool) -> String {
         let Some(mut items) = case.strip_prefix("json ").and_then(sx_parse) else {
             return case.to_string();
         };
